@@ -160,6 +160,7 @@ impl Monitors {
                         Action::AgeWorker { .. } => 17,
                         Action::ArmSlowStop { .. } => 18,
                         Action::Partition { .. } => 19,
+                        Action::HangUp { .. } => 20,
                         Action::Req { .. } => 11,
                         Action::AnswerFlush => 12,
                         Action::AnswerPrune => 13,
@@ -303,6 +304,18 @@ impl Monitors {
                         }
                     }
                     ToWorkerLite::Compute(ts) => {
+                        // the server hands out a task whose final outcome it has already announced
+                        for (t, _, _, _) in ts {
+                            if let Some(Auto::Terminal(kind)) = self.auto.get(t) {
+                                let (prop, rule) = match *kind {
+                                    "canceled" => ("C08", "K1-dispatched-after-cancel"),
+                                    "aborted" if self.aborted_by_limit_jobs.contains(&t.0) => ("C14", "M4-dispatched-after-limit-abort"),
+                                    "aborted" => ("C03", "D2-aborted-dependent-dispatched"),
+                                    _ => ("C01", "R2-dispatched-after-terminal-outcome"),
+                                };
+                                viol(out, step, prop, rule, format!("the server sent ComputeTasks for {t:?} to worker {to_w} after the task had been announced as {kind}"));
+                            }
+                        }
                         self.count("compute.sent", ts.len() as u64);
                         self.count(
                             "prefill.sent",
@@ -1901,8 +1914,15 @@ impl Monitors {
                                 TaskStateSnapshot::RunningMultiNode(ws) => ws.first().copied(),
                                 _ => None,
                             });
-                            let _ = worker_alive;
-                            if !srv_cancel_sent.contains(&t) && !journal.iter().any(|e| matches!(e, Ev::WorkerLost(..))) {
+                            // only a worker lost in this very step cannot be told
+                            let holder_lost = match worker_alive.flatten() {
+                                Some(h) => journal.iter().any(|e| matches!(e, Ev::WorkerLost(w, _) if *w == h.as_num())),
+                                None => true,
+                            };
+                            if journal.iter().any(|e| matches!(e, Ev::WorkerLost(..))) {
+                                self.count("maxfails.crossing_by_worker_loss.held_task_checked", 1);
+                            }
+                            if !srv_cancel_sent.contains(&t) && !holder_lost {
                                 viol(
                                     out,
                                     step,
@@ -2396,7 +2416,13 @@ impl Monitors {
             if c.incarnation != inc {
                 continue;
             }
-            if c.state == ClientState::Streaming {
+            // (a client that got its report hangs up and is `Closed` by now; one whose stream the
+            // server closed without the report is `Closed` as well - that is the violation)
+            if c.state == ClientState::Streaming || c.state == ClientState::Closed {
+                if c.left_early {
+                    self.count("stream.clients_that_left_early", 1);
+                    continue;
+                }
                 if let Some(j) = c.stream_job {
                     self.count("stream.clients", 1);
                     let completed = self.job_completed_events.get(&j).copied().unwrap_or(0) > 0;
